@@ -217,6 +217,144 @@ class MergeContractTask(T.Task):
         return None
 
 
+class GetFoldTask(T.Task):
+    """registry.get on a directory of k files with ABSTRACT contents (dict registries: abstract dictionaries merged
+    through the contract of merge_dicts; list registries: opaque lists): the result is the LEFT fold in file-name
+    order - Merge(...Merge(Merge(c1, c2), c3)..., ck) resp. c1 + c2 + ... + ck with v2 files passed through parse_v2.
+    Unbounded in the contents, bounded in the number of files (k <= 4).  File system and json are replaced by
+    models (assumed: glob lists the *.json files, sorted() orders paths by name, json.load returns the document)."""
+    skip_cover = True
+    admitted_escapes = (ValueError,)        # empty directory: "Failed to load registry" (decided by the obligations below)
+
+    def __init__(self, kind, names):
+        self.kind = kind
+        self.names = [n for n in names.split(",") if n]
+        self.name = f"registry.get fold [{kind}] over files {self.names}"
+
+    def setup(self, I):
+        from pyvc import amap_hooks
+        amap_hooks.install()
+        return {}
+
+    def code(self, I, inp):
+        import json
+        import pathlib
+        from pyvc import amap as A
+        from pyvc import amap_hooks as H
+        from pyvc import models
+        from schwifty import registry
+        task = self
+        PathCls = type(pathlib.Path("/"))
+        chunks = {}
+        self.terms = {}
+
+        class FakeFP:
+            def __init__(self, name):
+                self.name = name
+
+            def pyvc_enter(self, I2):
+                return self
+
+            def pyvc_exit(self, I2):
+                pass
+
+        class FakeFile(PathCls):
+            def open(self, *a, **kw):
+                return FakeFP(self.name)
+
+        class FakeDir(PathCls):
+            def glob(self, pattern):
+                # deliberately NOT in name order: the code has to sort
+                return [FakeFile("/fake/" + n) for n in reversed(task.names)] + [FakeFile("/fake/readme.txt")][:0]
+
+        for n in self.names:
+            if self.kind == "dict":
+                d = {}
+                term = z3.Const("chunk_" + n.replace(".", "_").replace("-", "_"), A.Map)
+                H.register(I, d, A.AMap.of_term(term, n), local=False)
+                self.terms[id(d)] = term
+                chunks[n] = d
+            else:
+                chunks[n] = {"__v2_document__": n} if n[:-5].endswith("v2") else [f"{n}#{i}" for i in range(2)]
+
+        def fake_files(pkg):
+            return FakeRoot()
+
+        class FakeRoot:
+            def __truediv__(self, other):
+                return FakeDir("/fake")
+
+        def merge_contract(I2, a, b):
+            ta, tb = task.terms.get(id(a)), task.terms.get(id(b))
+            if ta is None or tb is None:
+                raise Unsupported("merge_dicts called on something that is not a loaded document / an earlier merge")
+            r = {}
+            t = A.MergeSpec(ta, tb)
+            H.register(I2, r, A.AMap.of_term(t, "merged"), local=True)
+            task.terms[id(r)] = t
+            return r
+        I.contracts["schwifty.registry.merge_dicts"] = merge_contract
+        I.contracts["schwifty.registry.parse_v2"] = lambda I2, doc: [f"v2({doc['__v2_document__']})#{i}" for i in range(2)]
+        I.contracts["schwifty.registry.save"] = lambda I2, name, data: data       # the one writer of _registry (import time)
+        saved = (registry.files, models.BUILTIN_MODELS.get(json.load))
+        registry.files = fake_files
+
+        def m_load(I2, fp):
+            # json.load allocates its result: a list document is a fresh list (the code may extend it in place)
+            doc = chunks[fp.name]
+            if isinstance(doc, list):
+                doc = list(doc)
+                I2.keep.append(doc)
+                I2.local_ids.add(id(doc))
+            return doc
+        models.BUILTIN_MODELS[json.load] = m_load
+        try:
+            res = I.call(registry.get, ["probe"], {})
+        finally:
+            registry.files = saved[0]
+            if saved[1] is None:
+                models.BUILTIN_MODELS.pop(json.load, None)
+            else:
+                models.BUILTIN_MODELS[json.load] = saved[1]
+        self.chunks = chunks
+        return ("DATA", res)
+
+    def custom_obligations(self, I, inp, code_paths, cobs):
+        from pyvc import amap as A
+        out = []
+        order = sorted(self.names)
+        for i, (path, o) in enumerate(cobs):
+            if isinstance(o, T.Escape):
+                ok = not order and isinstance(o.exc, ValueError)
+                out.append((f"path {i}: raises only for an empty directory (ValueError: failed to load)", path["pc"], z3.BoolVal(ok)))
+                continue
+            if isinstance(o, T.ExcTag):
+                out.append((f"path {i}: unexpected library error {o.name}", path["pc"], z3.BoolVal(False)))
+                continue
+            res = o[1]
+            if self.kind == "dict":
+                want = None
+                for n in order:
+                    t = z3.Const("chunk_" + n.replace(".", "_").replace("-", "_"), A.Map)
+                    want = t if want is None else A.MergeSpec(want, t)
+                got = self.terms.get(id(res))
+                out.append((f"path {i}: result = left fold of Merge over the files in name order {order}", path["pc"],
+                            z3.BoolVal(got is not None and want is not None and got.eq(want))))
+            else:
+                want = []
+                for n in order:
+                    want += [f"v2({n})#{j}" for j in range(2)] if n[:-5].endswith("v2") else [f"{n}#{j}" for j in range(2)]
+                out.append((f"path {i}: result = concatenation in name order, v2 files expanded", path["pc"],
+                            z3.BoolVal(res == want)))
+        return out
+
+    def native_agree(self, inp):
+        return True, None, None
+
+    def sample(self, rnd):
+        return None
+
+
 def enumerate_merge(max_depth):
     """bounded native enumeration incl. dict-versus-scalar conflicts and the frame condition"""
     from schwifty import registry
@@ -347,7 +485,12 @@ def overlay_check():
 def main(seed, tier):
     from props import common
     t0 = time.time()
+    folds = [("dict", ""), ("dict", "a.json"), ("dict", "b.json,a.json"), ("dict", "generated.json,overwrite.json,zz.json"),
+             ("dict", "overwrite.json,overwrite-local.json,generated.json,zz_user.json"),
+             ("list", ""), ("list", "manual_x.json"), ("list", "generated_b.json,generated_a.json,manual_dk.v2.json"),
+             ("list", "manual_lu.json,manual_lu-local.json,generated_at.json,zz.v2.json")]
     results = common.run_tasks([("props.c18", "MergeContractTask", ())] +
+                               [("props.c18", "GetFoldTask", f) for f in folds] +
                                [("props.c18", "MergeShapeTask", (i,)) for i in range(16)], seed, tier)
     obls = []
     n_merge, distinct, wit = enumerate_merge(3 if tier == "thorough" else 2)
@@ -379,9 +522,15 @@ def main(seed, tier):
                      "BOUNDED parts (not counted as proved): parse_v2 on enumerated documents; merge_dicts again on "
                      "enumerated small dictionaries and with symbolic leaves (cross-checks of the abstract proof); the "
                      "overlay scenario in a scratch copy of the package",
-                     "registry.get is compared with an independent name-ordered fold on the bundled files (exhaustive "
-                     "for this tree) and on one overlay scenario with order-sensitive file names; json and the file "
-                     "system are assumed"],
+                     "registry.get: real body executed on directories of 0..4 files whose contents are abstract "
+                     "(dictionaries: uninterpreted Map terms, merged through the proved contract of merge_dicts; lists: "
+                     "opaque), glob modelled as returning the files in reverse order, json.load as returning the "
+                     "document, sorted() natively on pathlib paths; result proved to be the left fold in name order "
+                     "(unbounded in the contents, BOUNDED in the number of files); additionally compared with an "
+                     "independent name-ordered fold on the bundled files (exhaustive for this tree) and on one overlay "
+                     "scenario with order-sensitive file names; json and the file system are assumed",
+                     "registry.save (the one writer of registry._registry, reached only at import / first load) is "
+                     "replaced by its contract 'returns data' in the fold task"],
         extra_cov=dict(evaluations=n_merge + n_v2 + n_ov + 1, distinct_nontrivial=distinct,
                        rule="all pairs of nested dict shapes over keys {a,b,c} depth 1 and {a,b} depth <= 2/3, three "
                             "leaf assignments each (scalars, lists, None, dict-vs-scalar conflicts arise from the shapes); "
